@@ -18,7 +18,8 @@ func init() {
 		Explanation: "C11.1 pair agreement: for every type in package proto having both AddTo and GetFrom, the attribute type written (Message.Add / AddToAs) is the one read (Message.Get / GetFromAs) and the one named in stun.CheckSize; the number of bytes written equals the size checked on decode; " +
 			"C11.2 decode safety: every index, slice and binary.UintN in a GetFrom / Decode / IsChannelData / consumeSingleTURNFrame is proven in range from the preceding size checks (undecided = failure); " +
 			"C11.3 ChannelData: Decode returns nil only on the Valid() edge and when the declared length does not exceed the bytes available, and truncates Data to exactly the declared length; WriteHeader writes Number and len(Data) into the first four bytes; after the payload has been appended, Encode only ever extends Raw by appending constant zero bytes (no re-slicing into stale capacity); " +
-			"C11.4 the integer an AddTo writes is a pure conversion of the receiver's value (no clamping or substitution path), matching the full width GetFrom reads.",
+			"C11.4 the integer an AddTo writes is a pure conversion of the receiver's value (no clamping or substitution path), matching the full width GetFrom reads; " +
+			"C11.5 the datagram recogniser IsChannelData does not involve the padding rule (it agrees with Decode on unpadded datagrams).",
 		NotCovered: "round-trip *equality* of values over the whole domain is numerical and is not claimed; pion/stun's own attribute framing; the padding amount (0..3) is checked structurally, not arithmetically.",
 		Run:        runC11,
 	})
@@ -463,5 +464,54 @@ func runC11(c *Ctx) {
 				c.Bad("C11.4", fname(fn), "encoded integer", w.instrPos(in), "the encoded integer does not derive from the receiver")
 			}
 		}
+	}
+	ruleRecogniserIgnoresPadding(c, "C11.5")
+}
+
+// ruleRecogniserIgnoresPadding (C11.5): IsChannelData decides whether a DATAGRAM is a
+// ChannelData message; Decode accepts exactly the buffers with a valid channel number and at
+// least the declared number of data bytes (padding is optional over UDP). The recogniser must
+// therefore not involve the 4-byte padding rule: a result that depends on the padded length
+// refuses unpadded datagrams Decode accepts (what browsers send), and they are then taken for
+// something else.
+func ruleRecogniserIgnoresPadding(c *Ctx, rule string) {
+	w := c.W
+	c.Rule(rule, "sibling agreement IsChannelData/Decode: the result of IsChannelData does not depend (data or control, through helpers) on the 4-byte padding computation (nearestPaddedValueLength, or a %4 / &3 rounding of the declared length)", 1)
+	fn := w.Func("proto", "", "IsChannelData")
+	pad := w.FuncOpt("proto", "", "nearestPaddedValueLength")
+	c.Anchor(rule, "IsChannelData")
+	isPad := func(v ssa.Value, _ []*ssa.Call) bool {
+		switch x := under(v).(type) {
+		case *ssa.Call:
+			return pad != nil && x.Call.StaticCallee() == pad
+		case *ssa.BinOp:
+			if x.Op == token.REM || x.Op == token.AND || x.Op == token.AND_NOT {
+				if k, ok := constInt(x.Y); ok && (k == 4 || k == 3) {
+					return true
+				}
+			}
+		}
+		return false
+	}
+	bad := ""
+	for _, r := range returnsOf(fn) {
+		if len(r.Results) == 0 {
+			continue
+		}
+		if w.depWalk(r.Results[0], nil, isPad) {
+			bad = "the result returned at " + w.instrPos(r) + " is computed from the padded length"
+		}
+		for _, f := range w.factsAt(r) {
+			for _, side := range []ssa.Value{f.X, f.Y} {
+				if side != nil && bad == "" && w.depWalk(side, nil, isPad) {
+					bad = "the return at " + w.instrPos(r) + " is taken under a condition on the padded length"
+				}
+			}
+		}
+	}
+	if bad == "" {
+		c.OK(rule, fname(fn), "IsChannelData", w.pos(fn.Pos()), "compares the declared length with the bytes present; padding plays no part")
+	} else {
+		c.Bad(rule, fname(fn), "IsChannelData", w.pos(fn.Pos()), bad+": an unpadded ChannelData datagram (padding is optional over UDP) that Decode accepts is not recognised as ChannelData")
 	}
 }
